@@ -218,6 +218,9 @@ def pins_rolegraph(out):
         ("bfs_next", f, r"pub\s+fn\s+next\s*\(", r"impl\s+Bfs\b"),
         ("bfs_update_depth", f, r"fn\s+update_depth\s*\(", r"impl\s+Bfs\b"),
         ("bfs_iterator", f, r"fn\s+bfs_iterator\s*\("),
+        ("link_if_matches", f, r"fn\s+link_if_matches\s*\("),
+        ("matching_fn", f, r"fn\s+matching_fn\s*\(", imp),
+        ("new", f, r"pub\s+fn\s+new\s*\(", r"impl\s+DefaultRoleManager"),
     ])
 
 
